@@ -21,6 +21,7 @@ RULE = (
     'and a non-cubic grid; distinct = SHA-1 of (cell, resolution, positions) / grid size.'
 )
 RULE += ' Added in rounds 6-9: result retention and a second volume on the same grid while the first is held; L/resolution within 1e-8..6e-4 of an integer; one grid of about 19 million voxels (large along all three axes).'
+RULE += ' Round 12: one volume (three in the thorough tier) binned from 4.3-5.5 million samples clustered in a few voxels, compared with a bincount of floor(x * n).'
 ASSUMPTIONS = [
     'a coordinate whose product with the grid size is within 1e-9 of an integer may be counted in either neighbouring voxel',
     'size inequalities use 1e-12 relative slack',
@@ -42,6 +43,7 @@ def units(tier):
     out += [{'k': 'rand', 'i': i} for i in range(N_CASES[tier])]
     # grids that are large in all three directions at once (tens of millions of voxels)
     out += [{'k': 'big3d', 'i': i} for i in range(1 if tier == 'quick' else 4)]
+    out += [{'k': 'many', 'i': i} for i in range(1 if tier == 'quick' else 3)]
     return out
 
 
@@ -137,7 +139,39 @@ def run_big3d(unit, rng, ctx):
     ctx.case(f'big3d{unit["i"]}', True, sample={'kind': 'big3d', 'grid': n.tolist(), 'voxels': int(data.size), 'resolution': res})
 
 
+def run_manysamples(unit, rng, ctx):
+    """A long run: 4.3-5.5 million samples (frames x atoms) on a coarse grid, most of them clustered in a few voxels."""
+    kind, rot, m = geom.random_lattice(rng, lo=4.0, hi=8.0)
+    N = int(rng.integers(2, 6))
+    T = int(rng.integers(4_300_000, 5_500_000)) // N + 1
+    res = float(rng.uniform(0.4, 0.7))
+    centres = rng.uniform(0, 1, size=(N, 3))
+    X = centres[None] + rng.normal(0, 0.03, size=(T, N, 3))
+    hop = rng.uniform(size=(T, N)) < 0.02
+    X[hop] = rng.uniform(0, 1, size=(int(hop.sum()), 3))
+    X -= np.floor(X)
+    X[X == 1] = 0
+    traj = gen.make_trajectory(m, gen.species_objects(['Li'] * N), X, presentation='plain')
+    vol = traj.to_volume(resolution=res)
+    data = np.asarray(vol.data)
+    n = np.array(data.shape)
+    what = f'{kind} {T} frames x {N} atoms = {T * N} samples, grid {n.tolist()}'
+    ctx.check(int(data.sum()) == T * N, f'{what}: voxel sum {int(data.sum())} != frames x atoms {T * N}')
+    scaled = X.reshape(-1, 3) * n
+    idx = np.floor(scaled).astype(int)
+    # samples within 1e-9 voxel of a voxel face may be binned on either side
+    amb = int(np.sum(np.abs(scaled - np.round(scaled)) < 1e-9))
+    want = np.bincount(np.ravel_multi_index(idx.T, tuple(n)), minlength=int(data.size)).reshape(tuple(n))
+    dev = int(np.abs(data - want).sum())
+    ctx.check(data.shape == want.shape and dev <= 2 * amb, f'{what}: voxel counts differ from the number of samples with floor(x * n) in each voxel (total deviation {dev}, at most {amb} samples lie on a voxel face); e.g. voxel {np.unravel_index(int(np.argmax(np.abs(data - want))), want.shape)} holds {int(data.flat[int(np.argmax(np.abs(data - want)))])} of {int(want.flat[int(np.argmax(np.abs(data - want)))])}', {'matrix': m, 'resolution': res})
+    ctx.count('volumes_from_more_than_4.3e6_samples')
+    ctx.count('samples_in_the_largest_run', T * N)
+    ctx.case(f'many{unit["i"]}', True, sample={'kind': 'manysamples', 'frames': T, 'atoms': N, 'grid': n.tolist()})
+
+
 def run_unit(unit, rng, ctx):
+    if unit['k'] == 'many':
+        return run_manysamples(unit, rng, ctx)
     if unit['k'] == 'rt':
         return run_roundtrip(unit, rng, ctx)
     if unit['k'] == 'big3d':
